@@ -1,7 +1,250 @@
-//! C27 — not implemented yet.
-use vcore::Ctx;
+//! C27 — check modes agree with write modes.
+//!
+//! A generated project (`vproj`, every Veryl.toml variant incl. bundle targets,
+//! incremental on or off) is brought into a generated tree state: formatted or
+//! not, never built or built, then 0–4 state operations (source edited after
+//! the build, output deleted / hand-edited / touched, file added / deleted /
+//! renamed, layout of a source loosened, Veryl.toml changed, warning added).
+//! From that one state S (saved with `cp -a`, restored to the same path before
+//! every command):
+//!
+//!   `veryl fmt --check` exits 0  <=>  `veryl fmt` changes no `*.veryl` file
+//!   `veryl build --check` exits 0 <=>  `veryl build` changes no emitted `.sv`
+//!                                      of the project (directory / source
+//!                                      target) resp. the bundle file
+//!
+//! Which files count for `build --check` follows cmd_build.rs: it compares the
+//! emitted text of every analysed, non-example, non-`$std` source with its
+//! `dst` file, or the assembled bundle with the bundle file.  Source maps, the
+//! filelist and the `$std` outputs under `dependencies/` are written by
+//! `veryl build` but are not looked at by `--check`; they are excluded (their
+//! changes are counted as a class, not asserted).
 
-pub fn run(_ctx: &Ctx) {
-    println!("INCONCLUSIVE property=C27: check not implemented");
-    std::process::exit(2);
+use serde_json::json;
+use std::collections::BTreeSet;
+use vcore::{CaseCfg, Ctx, Draw, Outcome, hash_str};
+use vproj::cli::{OutTree, Workspace};
+use vproj::edit::{EditPolicy, Editor};
+use vproj::toml::Target;
+use vproj::{GenOpts, gen_project};
+
+fn sources(t: &OutTree) -> OutTree {
+    t.iter()
+        .filter(|(k, _)| k.ends_with(".veryl"))
+        .map(|(k, v)| (k.clone(), v.clone()))
+        .collect()
+}
+
+fn changed(before: &OutTree, after: &OutTree) -> Vec<String> {
+    vproj::cli::changed_files(before, after)
+}
+
+fn reason(r: &vproj::CliResult) -> String {
+    if r.panicked {
+        return format!("panic {}", r.panic_line());
+    }
+    r.diags
+        .iter()
+        .find(|x| !x.code.is_empty())
+        .map(|x| x.code.clone())
+        .unwrap_or_else(|| format!("exit {:?}: {}", r.code, r.tail(2).chars().take(120).collect::<String>()))
+}
+
+fn one_case(d: &mut Draw) -> Outcome {
+    let gopts = GenOpts {
+        loose_per_mille: if d.chance(1, 3) { 300 } else { 0 },
+        ..GenOpts::default()
+    };
+    let pol = EditPolicy {
+        output_edit: true,
+        output_delete: true,
+        output_touch: true,
+        loose: true,
+        errors: false,
+        gen_opts: gopts.clone(),
+        ..EditPolicy::default()
+    };
+    let mut p = gen_project(d, &gopts);
+    p.cfg.incremental = d.chance(1, 2);
+    let ws = Workspace::new("c27", &p.cfg.name);
+    let mut ed = Editor::create(&p, &ws);
+    let initial = p.summary();
+    let mut steps: Vec<String> = vec![];
+    let mut classes: BTreeSet<String> = BTreeSet::new();
+
+    // ---- bring the tree into a state ---------------------------------------
+    let formatted = d.chance(8, 10);
+    if formatted {
+        let r = ws.veryl(&["fmt"]);
+        if r.timed_out {
+            return Outcome::skip("a command timed out");
+        }
+        if r.code != Some(0) {
+            return Outcome::skip(format!("generated project not accepted by veryl fmt ({})", reason(&r)));
+        }
+        // (Editor::disk keeps the model rendering last written, so the files
+        // are not considered out of sync with the model after formatting)
+        steps.push("veryl fmt".into());
+    } else {
+        classes.insert("never_formatted".into());
+    }
+    let built = d.chance(8, 10);
+    if built {
+        let r = ws.veryl(&["build"]);
+        if r.timed_out {
+            return Outcome::skip("a command timed out");
+        }
+        if r.panicked {
+            return Outcome::skip(format!("veryl build panics on the generated project (C11's domain): {}", r.panic_line()));
+        }
+        if r.code != Some(0) {
+            return Outcome::skip(format!("generated project not accepted by veryl build ({})", reason(&r)));
+        }
+        steps.push("veryl build".into());
+    } else {
+        classes.insert("never_built".into());
+    }
+    let n_ops = d.weighted(&[3, 5, 3, 2, 1]);
+    let mut hand_written = false;
+    for _ in 0..n_ops {
+        let op = ed.draw(d, &p, &ws, &pol);
+        let a = ed.apply(d, &mut p, &ws, &op, &pol);
+        for c in &a.classes {
+            classes.insert(c.to_string());
+        }
+        // text written by the editor after `veryl fmt` is not formatter output
+        if !a.touched.is_empty() {
+            hand_written = true;
+        }
+        steps.push(format!("{:?}", a.desc));
+    }
+    if p.cfg.is_bundle() {
+        classes.insert("bundle_target".into());
+    }
+    if p.cfg.incremental {
+        classes.insert("incremental".into());
+    }
+    let nontrivial = n_ops > 0 || !built || !formatted;
+    ws.save_state("s");
+
+    let mk_input = |extra: serde_json::Value, steps: &Vec<String>| {
+        json!({"project": initial, "state": steps, "detail": extra, "script": ws.script()})
+    };
+
+    // ---- fmt --check vs fmt -------------------------------------------------
+    let fc = ws.veryl(&["fmt", "--check"]);
+    ws.restore_state("s", false);
+    let before = sources(&ws.all_files());
+    let fw = ws.veryl(&["fmt"]);
+    let after = sources(&ws.all_files());
+    ws.restore_state("s", false);
+    if fc.timed_out || fw.timed_out {
+        return Outcome::skip("a command timed out");
+    }
+    let fmt_changed = changed(&before, &after);
+    if fw.code == Some(0) && !fw.panicked && !fc.panicked {
+        let passes = fc.code == Some(0);
+        if passes != fmt_changed.is_empty() {
+            let sig = if passes { "fmt/check-passes-but-fmt-rewrites" } else { "fmt/check-fails-but-fmt-changes-nothing" };
+            return Outcome::fail(
+                sig,
+                format!(
+                    "`veryl fmt --check` exits {:?}, `veryl fmt` from the same state changes {:?}\nstate: {:#?}\ncheck output tail:\n{}",
+                    fc.code,
+                    fmt_changed,
+                    steps,
+                    fc.tail(12)
+                ),
+                mk_input(json!({"fmt_check_exit": fc.code, "fmt_changed": fmt_changed}), &steps),
+            );
+        }
+        classes.insert(if passes { "fmt_check_passes".into() } else { "fmt_check_fails".into() });
+    } else {
+        classes.insert("fmt_write_mode_failed_not_compared".into());
+    }
+    if hand_written && fmt_changed.is_empty() {
+        classes.insert("editor_text_already_formatted".into());
+    }
+
+    // ---- build --check vs build ---------------------------------------------
+    let bc = ws.veryl(&["build", "--check"]);
+    ws.restore_state("s", false);
+    let before = ws.outputs();
+    let bw = ws.veryl(&["build"]);
+    let after = ws.outputs();
+    if bc.timed_out || bw.timed_out {
+        return Outcome::skip("a command timed out");
+    }
+    let all_changed = changed(&before, &after);
+    let bundle_file = match &p.cfg.target {
+        Target::Bundle(b) => Some(b.clone()),
+        _ => None,
+    };
+    let counted: Vec<String> = all_changed
+        .iter()
+        .filter(|k| {
+            let name = k.trim_end_matches(" (removed)");
+            match &bundle_file {
+                Some(b) => name == b,
+                None => name.ends_with(".sv") && !name.starts_with("dependencies/"),
+            }
+        })
+        .cloned()
+        .collect();
+    if bw.code == Some(0) && !bw.panicked && !bc.panicked {
+        let passes = bc.code == Some(0);
+        if passes != counted.is_empty() {
+            let sig = match (passes, bundle_file.is_some()) {
+                (true, false) => "build/check-passes-but-build-rewrites-sv",
+                (true, true) => "build/check-passes-but-build-rewrites-bundle",
+                (false, false) => "build/check-fails-but-build-changes-no-sv",
+                (false, true) => "build/check-fails-but-build-changes-no-bundle",
+            };
+            return Outcome::fail(
+                sig,
+                format!(
+                    "`veryl build --check` exits {:?} (restored {:?}); `veryl build` from the same state (restored {:?}) changes {:?} (all emitted changes: {:?})\nstate: {:#?}\ncheck output tail:\n{}",
+                    bc.code,
+                    bc.restored,
+                    bw.restored,
+                    counted,
+                    all_changed,
+                    steps,
+                    bc.tail(14)
+                ),
+                mk_input(
+                    json!({"build_check_exit": bc.code, "counted_changes": counted, "all_changes": all_changed}),
+                    &steps,
+                ),
+            );
+        }
+        classes.insert(if passes { "build_check_passes".into() } else { "build_check_fails".into() });
+        if passes && !all_changed.is_empty() {
+            classes.insert("check_passes_while_only_map_filelist_or_std_outputs_change".into());
+        }
+        if bw.restored.is_some_and(|(k, _)| k > 0) {
+            classes.insert("build_restored_fragments".into());
+        }
+    } else {
+        classes.insert("build_write_mode_failed_not_compared".into());
+    }
+
+    let text = format!("{initial}\n{}", steps.join("\n"));
+    Outcome::pass(hash_str(&text), nontrivial, classes.into_iter().collect(), text)
+}
+
+pub fn run(ctx: &Ctx) {
+    let mut n = ctx.scale(260, 8000);
+    if let Some(k) = std::env::var("VERIF_C27_CASES").ok().and_then(|x| x.parse().ok()) {
+        n = k; // development aid
+    }
+    ctx.run("state", CaseCfg::cases(n).choices(1200).timeout_s(900).shrink_iters(30), one_case);
+    ctx.assume("check mode and write mode both start from the same saved tree state (cp -a, mtimes kept) restored to the same path, so cache entries / build info / absolute filelists refer to the same paths");
+    ctx.assume("fmt: a file counts as changed if the bytes of a *.veryl file differ after `veryl fmt` (exit 0); cases where write mode itself fails are not compared");
+    ctx.assume("build: counted files are the emitted .sv files of project sources (outside dependencies/) for source/directory targets, the bundle file for bundle targets (cmd_build.rs check branch / check_bundle). Source maps, the filelist and $std outputs are written by `veryl build` but not examined by `--check`; they are excluded");
+    ctx.assume("with incremental = true a file restored from the fragment cache is neither compared by --check nor written by build; the oracle is CLI against CLI, so this is consistent by itself");
+    ctx.finish(
+        "exploration",
+        "vproj projects x tree states (formatted or not, built or not, then 0-4 state operations of vproj::edit incl. output deleted/hand-edited/touched, source edited, layout loosened, Veryl.toml changed, bundle targets, incremental on/off); non-trivial = the state differs from 'formatted and freshly built'; distinct by project+state text",
+    );
 }
